@@ -70,13 +70,13 @@ CHECKS = {
         engine="ops", category="exploration",
         technique="stateful property-based testing: generated operator histories over all shipped ruin/recreate/local/search operators with an invariant checked after every step and a parent snapshot comparison",
         text="States built from generated pragmatic problems are driven through generated histories of operators taken from all shipped ones via their public constructors (9 ruins, 11 recreates, 7 local operators, 8 search operators incl. decomposition, redistribution, infeasible search with repair and LKH). After every step the invariant Inv (job placement partition, registry bookkeeping, multi-job wholeness and order, duplicate activities, R-feasibility and conservation of the assigned part) and parent-unchanged (deep structural snapshot) are asserted. Found and fixed the LKH pending-break defect and a swap-star panic; two open findings (repair accepts infeasible routes, removals on non-metric data).",
-        note="Trusted: Inv predicates in harness/src/engines/ops.rs and R. Local/search operators are only applied to finalized states (callers' precondition). Relations/locks are not generated yet. Operators run in a 1-thread pool.",
+        note="Trusted: Inv predicates in harness/src/engines/ops.rs and R. Local/search operators are only applied to finalized states (callers' precondition). Every 4th history runs on a problem with relations read off a witness solution, so the pinned-jobs clause is exercised through R's relation rules (vehicle, order, contiguity, anchors); marker jobs (breaks, reloads) must live in exactly one place too. Operators run in a 1-thread pool. Found and fixed nine operator-level defects (see DESIGN 12).",
         design_ref="4/C04"),
     "C05": dict(
         engine="ops", category="exploration",
         technique="stateful property-based testing with a recomputation oracle: cached route/solution state (digest hook) vs state recomputed from bare tours at every hand-over point",
         text="Same operator histories as C04; at every hand-over point (initial construction, output of each recreate, local operator, search operator) the context is stripped to bare tours and the state is recomputed the way the code base itself does (goal.accept_route_state per route, then goal.accept_solution_state); schedules, every route-state key (through the verif_digest hook), tour-derived solution-state keys, fitness and the fixpoint condition are compared, and identical tours must compare Equal. Found and fixed a stale compatibility tag and a non-fixpoint finalisation.",
-        note="Trusted: recomputation through the public goal API; opaque state types are compared for presence only; shared-resource availability compared on complete contexts and up to trailing empty entries; the per-insertion observer comparison of DESIGN is not implemented yet (hand-over points only).",
+        note="Trusted: recomputation through the public goal API; opaque state types are compared for presence only; shared-resource availability compared on complete contexts and up to trailing empty entries; the comparison is made at hand-over points (every recreate is a sequence of insertions followed by a hand-over); the per-insertion observer hook is used for tracing only.",
         design_ref="4/C05"),
     "C07": dict(
         engine="interrupt", category="fault_enumeration",
